@@ -4,6 +4,7 @@ import ScrapliModel.Lemmas.LossNc
 import ScrapliModel.Lemmas.Channel
 import ScrapliModel.Generated.Consts
 import ScrapliModel.Generated.C06ReadLoop
+import ScrapliModel.ChannelEv
 /-!
 # C06 — Connection loss surfaces as an error, never as a hang or a truncated success
 
@@ -92,6 +93,52 @@ theorem loss_yields_error_fresh (k : Nat) (kind : Kind) (prog : List Phase) (pre
   have hL : LostArmed (fresh k kind) := by simp [LostArmed, fresh]
   exact ⟨loss_yields_error pre post _ s1 _ o1 hD hL hpre hlost hpost,
     fun sched s' outs => loss_never_ok sched _ s' _ outs hD⟩
+
+/-! ## the read path every operation goes through (tied to the source by generated facts) -/
+
+/-- OBLIGATION: `Channel.Read` consults `Errs` and then the read-loop-exited flag before it
+dequeues — the order `chRead` models (a dequeue-first `Read` hands stale bytes to operations after
+the loss; a `Read` without the flag never reports an end-of-stream). -/
+theorem channel_read_consults_errs_then_flag :
+    Gen.C06ReadLoop.readOrder = ["errs", "exited", "dequeue"] := by decide
+
+/-- OBLIGATION: each of the four `ReadUntil*` loops takes its bytes through `c.Read()` and nothing
+else (`ReadAll` consults `Errs` only — `readAllOrder` — so a loop built on it would not see an
+end-of-stream; `Q.Dequeue` directly would see no loss at all). -/
+theorem readUntil_loops_read_through_Read :
+    Gen.C06ReadLoop.readSources = [("ReadUntilAnyPrompt", "c.Read"), ("ReadUntilExplicit", "c.Read"),
+      ("ReadUntilFuzzy", "c.Read"), ("ReadUntilPrompt", "c.Read")] := by decide
+
+/-- the event one `Channel.Read` produces for the source-translated loops of `ChannelEv` -/
+def evOf : RR → Ev
+  | .err e => .err (match e with | .transport => "transport" | .connection => "connection" | .write => "write")
+  | .nil => .empty
+  | .data c => .chunk c
+
+/-- BRIDGE to the loops as written (`readUntilEv`, to which `Props/C01Body` proves the translated
+`ReadUntil*` bodies equal): one step of a `read P` phase of this model is exactly one iteration of
+`readUntilEv P` on the event `Channel.Read` produced — an error ends the loop with that error, a
+completing chunk ends it with the buffer, anything else leaves it polling. -/
+theorem read_phase_is_one_loop_iteration (s : St) (P : Bytes → Bool) (rest : List Phase) (rb : Bytes)
+    (outs : List Bytes) :
+    (match ostep s { prog := .read P :: rest, rb := rb, outs := outs } with
+      | (_, .inr (.error e)) => readUntilEv P [evOf (chRead s).1] rb = some (.err (match e with
+          | .transport => "transport" | .connection => "connection" | .write => "write"), [])
+      | (_, .inr (.ok _)) => False
+      | (_, .inl o') =>
+        if o'.prog.length = rest.length then
+          ∃ r, readUntilEv P [evOf (chRead s).1] rb = some (.ok r, []) ∧ o'.outs = outs ++ [r]
+        else readUntilEv P [evOf (chRead s).1] rb = none) := by
+  unfold ostep
+  simp only
+  rcases h : chRead s with ⟨rr, s'⟩
+  cases rr with
+  | err e => cases e <;> simp [evOf, readUntilEv]
+  | nil => simp [evOf, readUntilEv]
+  | data c =>
+    by_cases hP : P (rb ++ c) = true
+    · simp [evOf, readUntilEv, hP]
+    · simp [evOf, readUntilEv, hP]
 
 /-! ## every non-EOF error VALUE is a loss (tied to the source by a generated fact) -/
 
